@@ -23,6 +23,9 @@ with all flags false nothing is yielded. _filter_out_nested_controldirs keeps a 
 handler (a directory in which ControlDir.open succeeds — a nested branch — is dropped) and passes files through.
 Added while testing against seeded changes: Also: only NotBranchError means 'not a branch' in the nested-controldir
 filter; InventoryWorkingTree.extras lists a versioned directory only after the lstat-based osutils.isdir.
+Third round: delete-under-scan-lock — delete_items is called inside the `with tree.lock_*()` block that called iter_deletables.
+nested-branches-kept, two further clauses (from a third-round agent's observations on the unmodified tree, both known findings): the
+filter searches a listed directory for control directories below it; a listed file is checked against enclosing control directories.
 Does not decide: correctness of WorkingTree.extras() / is_ignored().
 """
 DESTRUCTIVE = {"shutil.rmtree", "os.unlink", "os.remove", "os.rmdir", "osutils.delete_any", "osutils.rmtree", "delete_any", "rmtree", "os.removedirs", "shutil.move", "os.rename"}
@@ -120,9 +123,40 @@ def run(ctx):
     ctx.check("extras-stays-inside-tree", we, all("dirabs" in norm(c.args[0]) for i in ls for c in ge.nodes[i].calls() if norm(c.func) == "os.listdir"), "the directory listed is the one that was tested")
     rets = [norm(r_.value) for r_ in walk_own(fn) if isinstance(r_, ast.Return)]
     ctx.check("nested-branches-kept", where, rets == ["result"], "the filtered list is what is returned")
+    # ---- the scan, the question and the deletion happen under one tree lock ----------------------------------------------
+    fct = repo.func(CT, "clean_tree")
+    wct = f"{CT}:clean_tree"
+    withs = [w for w in ast.walk(fct) if isinstance(w, ast.With) and any(isinstance(it.context_expr, ast.Call) and call_attr(it.context_expr) in ("lock_read", "lock_write", "lock_tree_write") for it in w.items)]
+    scans = [c for c in calls_in(fct) if call_name(c) == "iter_deletables" or call_attr(c) == "iter_deletables"]
+    dels_ct = [c for c in calls_in(fct) if call_name(c) == "delete_items" or call_attr(c) == "delete_items"]
+    ctx.require(bool(scans) and bool(dels_ct), f"{wct}: iter_deletables / delete_items calls not found")
 
+    def _inside(c, w):
+        return any(x is c for x in ast.walk(w))
+
+    ok_lock = all(any(_inside(d_, w) and any(_inside(s_, w) for s_ in scans) for w in withs) for d_ in dels_ct)
+    ctx.check("delete-under-scan-lock", wct, ok_lock, "delete_items runs inside the `with tree.lock_*()` block that listed the deletables", construct=str([f"L{d_.lineno}" for d_ in dels_ct]), message="clean_tree releases the tree lock between listing the unversioned paths and deleting them (the confirmation prompt sits in between): another process can version one of the listed files meanwhile (`brz add` is no longer refused by the lock) and clean-tree then deletes a versioned file")
+    # ---- the nested-branch filter looks above and below the path it is given -------------------------------------------
+    ffil = repo.func(CT, "_filter_out_nested_controldirs")
+    wfil = f"{CT}:_filter_out_nested_controldirs"
+    looks_below = any(call_attr(c) in ("walk", "listdir", "scandir", "iter_files_recursive", "_filter_out_nested_controldirs") or call_name(c) in ("os.walk", "os.listdir", "os.scandir", "_filter_out_nested_controldirs") for c in calls_in(ffil))
+    if looks_below:
+        ctx.check("nested-branches-kept", f"{wfil}[descendants]", True, "a directory queued for deletion is searched for control directories below it")
+    else:
+        ctx.violation("nested-branches-kept", f"{wfil}[descendants]", "ControlDir.open(path) on the listed path only", "_filter_out_nested_controldirs probes only the listed directory itself: a branch in a sub-directory of an unknown directory (unk/nested/.bzr) is not seen, the whole directory is deleted with the branch in it")
+    # a listed *file* is appended without any probe: if the tree lists the contents of a nested tree file by file (the git tree does:
+    # its extras() prunes only directories holding .git), the files of a nested branch, control directory included, are deleted
+    probes_files = False
+    for n_ in ast.walk(ffil):
+        if isinstance(n_, ast.If) and any(call_name(c) in ("isdir", "osutils.isdir", "os.path.isdir") for c in calls_in(ast.Expr(value=n_.test))):
+            probes_files = any(call_attr(c) in ("open", "open_containing", "find_format") or "control" in (call_name(c) or "").lower() for st in n_.orelse for c in calls_in(st))
+    if probes_files:
+        ctx.check("nested-branches-kept", f"{wfil}[files-in-nested-tree]", True, "a listed file is checked against enclosing control directories")
+    else:
+        ctx.violation("nested-branches-kept", f"{wfil}[files-in-nested-tree]", "else: result.append((path, subp))", "_filter_out_nested_controldirs keeps every listed path that is not a directory without asking whether it lies inside a nested tree: GitWorkingTree.extras() lists the files of a nested bzr branch one by one (nested/.bzr/README, …), so clean-tree deletes the nested branch, control directory included")
 
 MUTANTS = [
+    Mutant("deletion after the tree lock is released", CT, "                return 0\n        delete_items(deletables, dry_run=dry_run)\n", "                return 0\n    delete_items(deletables, dry_run=dry_run)\n", expect="delete-under-scan-lock"),
     Mutant("unlink outside the dry-run guard", CT, "        if not dry_run:\n            if isdir(path):\n                shutil.rmtree(path, onerror=onerror)\n            else:", "        if isdir(path):\n            if not dry_run:\n                shutil.rmtree(path, onerror=onerror)\n        elif True:\n            if True:", expect="dry-run-deletes-nothing"),
     Mutant("unknowns yielded without the flag", CT, "        else:\n            if unknown:\n                yield tree.abspath(subp), subp\n", "        else:\n            yield tree.abspath(subp), subp\n", expect="category-guards"),
     Mutant("nested control dirs appended in the else", CT, "            else:\n                # TODO may be we need to notify user about skipped directories?\n                pass\n", "            else:\n                result.append((path, subp))\n", expect="nested-branches-kept"),
